@@ -59,13 +59,14 @@ class Acc:
                 'nviol': self.nviol, 'extra': self.extra}
 
 
-def run(ctx, modname, fname, jobs, mode='nrt', bound=None, extra_init=None):
+def run(ctx, modname, fname, jobs, mode='nrt', bound=None, extra_init=None,
+        maxtasks=None):
     """Execute all shard jobs on the pool of `mode`, aggregate into ctx."""
     jobs = list(jobs)
     order = core.shard_order(len(jobs), ctx.seed)
     n = 0
     for res in ctx.map(mode, modname, fname, [jobs[i] for i in order],
-                       extra_init=extra_init):
+                       extra_init=extra_init, maxtasks=maxtasks):
         ctx.violation_count += res.get('nviol', 0) - len(res.get('viol', ()))
         ctx.absorb(res, bound)
         n += 1
